@@ -81,3 +81,99 @@ Theorem cmap_range_exact start end_ : start <= end_ -> end_ - start < 65536 -> c
 Proof. unfold cmap_range_steps, MAX_RANGE. lia. Qed.
 Theorem width_range_exact c1 c2 : 0 <= c1 <= c2 -> c2 <= 65535 -> width_range_steps c1 c2 = c2 - c1 + 1.
 Proof. unfold width_range_steps. lia. Qed.
+
+(* ---------- read_xref_from: every section is read at most once, on any graph of /Prev and /XRefStm links ------------ *)
+Lemma nodup_app_intro (a b : list Z) : NoDup a -> NoDup b -> (forall x, In x a -> In x b -> False) -> NoDup (a ++ b).
+Proof.
+  induction a as [|x a IH]; intros Ha Hb Hd; [exact Hb|]. inversion Ha; subst. cbn [app]. constructor.
+  - intros Hin. apply in_app_or in Hin. destruct Hin as [Hin|Hin]; [contradiction|]. apply (Hd x); [left; reflexivity|exact Hin].
+  - apply IH; [assumption|assumption|]. intros y Hy1 Hy2. apply (Hd y); [right; exact Hy1|exact Hy2].
+Qed.
+
+Section XRead.
+  Variable links : Z -> list Z.
+  Variable U : list Z.
+  Hypothesis closed : forall n, In n U -> incl (links n) U.
+
+  Definition unv (vis : list Z) : nat := length (filter (fun u => negb (mem u vis)) U).
+
+  Lemma filter_len_le (f g : Z -> bool) (l : list Z) : (forall x, f x = true -> g x = true) ->
+    (length (filter f l) <= length (filter g l))%nat.
+  Proof.
+    intros H. induction l as [|x r IH]; [cbn; lia|]. cbn [filter].
+    destruct (f x) eqn:Ef; [rewrite (H x Ef); cbn [length]; lia|destruct (g x); cbn [length]; lia].
+  Qed.
+  Lemma unv_mono vis vis' : incl vis vis' -> (unv vis' <= unv vis)%nat.
+  Proof.
+    intros H. unfold unv. apply filter_len_le. intros x Hx. apply negb_true_iff in Hx. apply negb_true_iff.
+    destruct (mem x vis) eqn:E; [|reflexivity]. apply mem_in, H, mem_in in E. congruence.
+  Qed.
+  Lemma unv_add vis n : In n U -> mem n vis = false -> (unv (n :: vis) < unv vis)%nat.
+  Proof.
+    intros Hn Hm. unfold unv. clear closed. induction U as [|u r IH]; [destruct Hn|].
+    assert (Hle : forall l, (length (filter (fun u => negb (mem u (n :: vis))) l) <= length (filter (fun u => negb (mem u vis)) l))%nat).
+    { intros l. apply filter_len_le. intros x Hx. apply negb_true_iff in Hx. apply negb_true_iff.
+      change (mem x (n :: vis)) with ((x =? n) || mem x vis) in Hx. apply orb_false_iff in Hx. apply Hx. }
+    cbn [filter]. destruct Hn as [->|Hn].
+    - rewrite Hm. change (mem n (n :: vis)) with ((n =? n) || mem n vis). rewrite Z.eqb_refl. cbn [orb negb length].
+      specialize (Hle r). lia.
+    - specialize (IH Hn). specialize (Hle [u]). cbn [filter] in Hle.
+      destruct (negb (mem u (n :: vis))), (negb (mem u vis)); cbn [length] in *; lia.
+  Qed.
+
+  (* what a run of xread guarantees *)
+  Definition good (vis : list Z) (res : list Z * list Z) : Prop :=
+    let '(vis', o) := res in
+    incl vis vis' /\ NoDup o /\ (forall x, In x o -> ~ In x vis) /\ (forall x, In x vis' <-> In x vis \/ In x o) /\ incl o U.
+
+  Theorem xread_terminates : forall fuel vis start, In start U -> (unv vis < fuel)%nat ->
+    exists res, xread links fuel vis start = Some res /\ good vis res.
+  Proof.
+    induction fuel as [|f IH]; intros vis start Hs Hf; [lia|].
+    cbn [xread]. destruct (mem start vis) eqn:Em.
+    - exists (vis, []). split; [reflexivity|]. cbn. repeat split; try (intros x []); auto using incl_refl; try constructor; tauto.
+    - assert (Hlt : (unv (start :: vis) < f)%nat) by (pose proof (unv_add vis start Hs Em); lia).
+      assert (Hnot : ~ In start vis) by (intros Hin; apply mem_in in Hin; congruence).
+      assert (G : forall ks vis0, incl ks U -> incl (start :: vis) vis0 ->
+                exists res, (fix go (ks : list Z) (vis : list Z) : option (list Z * list Z) :=
+                    match ks with
+                    | [] => Some (vis, [])
+                    | k :: r => match xread links f vis k with
+                                | Some (vis1, o1) => match go r vis1 with
+                                                     | Some (vis2, o2) => Some (vis2, o1 ++ o2)
+                                                     | None => None
+                                                     end
+                                | None => None
+                                end
+                    end) ks vis0 = Some res /\ good vis0 res).
+      { induction ks as [|k r IHr]; intros vis0 Hk Hv.
+        - exists (vis0, []). split; [reflexivity|]. cbn. repeat split; try (intros x []); auto using incl_refl; try constructor; tauto.
+        - destruct (IH vis0 k (Hk k (or_introl eq_refl))) as ([vis1 o1] & E1 & G1).
+          { pose proof (unv_mono (start :: vis) vis0 Hv). lia. }
+          destruct G1 as (I1 & N1 & D1 & M1 & U1).
+          destruct (IHr vis1 (fun x Hx => Hk x (or_intror Hx)) (incl_tran Hv I1)) as ([vis2 o2] & E2 & G2).
+          destruct G2 as (I2 & N2 & D2 & M2 & U2).
+          exists (vis2, o1 ++ o2). rewrite E1, E2. split; [reflexivity|]. cbn. repeat split.
+          + exact (incl_tran I1 I2).
+          + apply nodup_app_intro; [exact N1|exact N2|]. intros x H1 H2. apply (D2 x H2). apply M1. right. exact H1.
+          + intros x Hx Hin. apply in_app_or in Hx. destruct Hx as [Hx|Hx]; [exact (D1 x Hx Hin)|apply (D2 x Hx), I1, Hin].
+          + intros Hx. apply M2 in Hx. destruct Hx as [Hx|Hx]; [apply M1 in Hx; destruct Hx; [left|right; apply in_or_app; left]; assumption|right; apply in_or_app; right; exact Hx].
+          + intros [Hx|Hx]; [apply I2, I1, Hx|]. apply in_app_or in Hx. destruct Hx as [Hx|Hx]; [apply I2, M1; right; exact Hx|apply M2; right; exact Hx].
+          + apply incl_app; assumption. }
+      destruct (G (links start) (start :: vis) (closed start Hs) (incl_refl _)) as ([vis' o] & E & (I1 & N1 & D1 & M1 & U1)).
+      rewrite E. exists (vis', start :: o). split; [reflexivity|]. cbn. repeat split.
+      + intros x Hx. apply I1. right. exact Hx.
+      + constructor; [|exact N1]. intros Hin. apply (D1 start Hin). left. reflexivity.
+      + intros x [<-|Hx] Hin; [exact (Hnot Hin)|]. apply (D1 x Hx). right. exact Hin.
+      + intros Hx. apply M1 in Hx. destruct Hx as [[<-|Hx]|Hx]; [right; left; reflexivity|left; exact Hx|right; right; exact Hx].
+      + intros [Hx|[<-|Hx]]; [apply I1; right; exact Hx|apply I1; left; reflexivity|apply M1; right; exact Hx].
+      + intros x [<-|Hx]; [exact Hs|apply U1, Hx].
+  Qed.
+
+  Corollary xread_total start : In start U -> exists vis o, xread links (S (length U)) [] start = Some (vis, o) /\ NoDup o /\ incl o U.
+  Proof.
+    intros Hs. destruct (xread_terminates (S (length U)) [] start Hs) as ([vis o] & E & (_ & N & _ & _ & I)).
+    - unfold unv. clear. induction U as [|u r IH]; cbn [filter length]; [lia|]. destruct (negb (mem u [])); cbn [length]; lia.
+    - exists vis, o. auto.
+  Qed.
+End XRead.
